@@ -125,10 +125,18 @@ func (in *Interp) binop(op token.Token, xt types.Type, x, y Value, yt types.Type
 					}
 					return ts.Bin(OUDiv, a, b)
 				}
+				var r *Term
 				if signed {
-					return ts.Bin(OSRem, a, b)
+					r = ts.Bin(OSRem, a, b)
+				} else {
+					r = ts.Bin(OURem, a, b)
 				}
-				return ts.Bin(OURem, a, b)
+				// a remainder by a small constant (shard / stripe index) is forked into its few values at
+				// once: everything computed from it stays concrete
+				if !r.IsConst() && b.IsConst() && b.C >= 1 && b.C <= 16 && in.eagerSmallRem {
+					return in.concretize(r, "small remainder")
+				}
+				return r
 			case token.AND:
 				return ts.Bin(OBAnd, a, b)
 			case token.OR:
